@@ -527,8 +527,12 @@ var (
 	rAtomPredInd    = NewAtom("predicate_indicator")
 )
 
+var rImplContext = NewAtom("$implementation_defined_context")
+
 func rErr(formal Term) rOut {
-	return rOut{kind: rThrow, ball: xError.Apply(formal, NewVariable())}
+	// the context of an error raised by a built-in is implementation defined (ISO 7.12.2): the reference marks it, and the
+	// comparison ignores the implementation's context exactly where the mark is (a ball thrown by the program keeps ITS context)
+	return rOut{kind: rThrow, ball: xError.Apply(formal, rImplContext)}
 }
 
 func rInstErr() rOut { return rErr(xInstantiationError) }
